@@ -1605,7 +1605,14 @@ func (w *writeQueryFrame) buildFrame(framer *framer, streamID int) error {
 	return framer.writeQueryFrame(streamID, w.statement, &w.params, w.customPayload)
 }
 
+// maxCountedValues is the largest number of bound values (and of statements in a
+// batch) a frame can carry: the protocol counts them in a [short].
+const maxCountedValues = 1<<16 - 1
+
 func (f *framer) writeQueryFrame(streamID int, statement string, params *queryParams, customPayload map[string][]byte) error {
+	if len(params.values) > maxCountedValues {
+		return fmt.Errorf("gocql: %d bound values, a statement can carry at most %d", len(params.values), maxCountedValues)
+	}
 	if len(customPayload) > 0 {
 		f.payload()
 	}
@@ -1644,6 +1651,9 @@ func (e *writeExecuteFrame) buildFrame(fr *framer, streamID int) error {
 }
 
 func (f *framer) writeExecuteFrame(streamID int, preparedID []byte, params *queryParams, customPayload *map[string][]byte) error {
+	if len(params.values) > maxCountedValues {
+		return fmt.Errorf("gocql: %d bound values, a statement can carry at most %d", len(params.values), maxCountedValues)
+	}
 	if len(*customPayload) > 0 {
 		f.payload()
 	}
@@ -1695,6 +1705,14 @@ func (w *writeBatchFrame) buildFrame(framer *framer, streamID int) error {
 }
 
 func (f *framer) writeBatchFrame(streamID int, w *writeBatchFrame, customPayload map[string][]byte) error {
+	if len(w.statements) > maxCountedValues {
+		return fmt.Errorf("gocql: %d statements, a batch can carry at most %d", len(w.statements), maxCountedValues)
+	}
+	for i := range w.statements {
+		if n := len(w.statements[i].values); n > maxCountedValues {
+			return fmt.Errorf("gocql: batch statement %d has %d bound values, a statement can carry at most %d", i, n, maxCountedValues)
+		}
+	}
 	if len(customPayload) > 0 {
 		f.payload()
 	}
